@@ -755,6 +755,9 @@ func (r *run) checkTeardown(m *Model) {
 		t := h.LeftAtEnd[0]
 		r.viol("C16", "goroutines-exit", "C16/leftover-after-server-close/"+siteOf(t.Name)+"/"+t.Wait, "Server.Close returned and all connections have ended, but %d library goroutine(s) remain: %s", len(h.LeftAtEnd), simrt.FormatTasks(h.LeftAtEnd))
 	}
+	if h.ServeReturned && (h.ServerCloseCall == 0 || h.ServeRetStamp < h.ServerCloseCall) {
+		r.viol("C05", "keeps-serving", "C05/listen-and-serve-returned", "ListenAndServe returned (%q) although nobody had closed the server (%d temporary accept errors were injected, %d later connection attempts were refused): the broker stopped accepting clients", h.ServeErr, r.s.FaultCount("accept_error"), h.DialRefused)
+	}
 	if h.ServerClosed && !h.ServeReturned {
 		r.viol("C16", "serve-returns", "C16/listen-and-serve-hangs", "ListenAndServe did not return after Server.Close")
 	}
@@ -1452,10 +1455,16 @@ func (r *run) checkConnect(m *Model) {
 			if cto == 0 {
 				cto = 2 // the library's default
 			}
-			if !closedByBroker && c.ClientEnded && c.EndVT-c.OpenVT > (cto*1000+500)*1e6 {
+			// (the broker's clock for a connection starts when its accept loop
+			// hands the connection over, which temporary accept errors delay)
+			since := c.OpenVT
+			if a := int64(c.nc.AcceptVT()); a > since {
+				since = a
+			}
+			if !closedByBroker && c.ClientEnded && c.nc.AcceptVT() >= 0 && c.EndVT-since > (cto*1000+500)*1e6 {
 				// the client gave up only well after the connect timeout: the
 				// broker had all that time to close the connection and did not
-				r.viol("C11", "closed", "C11/not-closed/"+class, "connection %d sent %s as its first packet and the broker had not closed it %.1f virtual seconds later, when the client gave up (connect timeout %d s)", c.Idx, describeFirst(c), float64(c.EndVT-c.OpenVT)/1e9, cto)
+				r.viol("C11", "closed", "C11/not-closed/"+class, "connection %d sent %s as its first packet and the broker had not closed it %.1f virtual seconds after accepting it, when the client gave up (connect timeout %d s)", c.Idx, describeFirst(c), float64(c.EndVT-since)/1e9, cto)
 			}
 			if !closedByBroker && !c.ClientEnded {
 				r.viol("C11", "closed", "C11/not-closed/"+class, "connection %d sent %s as its first packet and was still open at the end", c.Idx, describeFirst(c))
@@ -1625,6 +1634,13 @@ func (r *run) checkKeepAlive(m *Model) {
 			continue
 		}
 		times := append([]int64{}, c.UpVT...)
+		for i := range times {
+			// the broker's keep-alive clock cannot start before its accept loop
+			// has handed the connection over (temporary accept errors delay that)
+			if a := int64(c.nc.AcceptVT()); times[i] < a {
+				times[i] = a
+			}
+		}
 		for i, t := range times {
 			next := end
 			if i+1 < len(times) {
